@@ -52,6 +52,24 @@ CHECKS['C17'] = {
     ],
 }
 
+CHECKS['C09'] = {
+    'level': 'exploration',
+    'technique': 'model-based property testing: generated operation histories on muscle::Hashtable (colliding hash functor) against an ordered-list model that also models every registered iterator (scratch copy + cookie) across mutations, Clear, swap, copy and table destruction',
+    'level_text': ('Generated-history search; after every operation the full forward and backward iteration, GetNumItems, Get() of every small key and the '
+                   'HasData/GetKey/GetValue of up to three live registered iterators are compared with the model. Bulk profiles (250..261 and 65530..65541 entries) '
+                   'cross the index-width boundaries with iterators alive. Held = no disagreement and no memory error on everything generated.'),
+    'level_note': ('Trusted: the list model and the iterator model derived from Hashtable.h (removing or moving the entry an iterator is on leaves the iterator showing a copy of it and '
+                   'continuing with its then-successor). Two corners the documentation leaves open are accepted either way (Clear/destruction may replace an existing scratch copy by the '
+                   'next entry; positional Put on an existing key may show the old value).'),
+    'rule': ('Byte-decoded histories (<=150 ops, 30 kinds, keys 0..11 hashed to 3 buckets, two tables, three iterators forward/backward/at-key). Non-trivial: a mutation executed while a registered '
+             'iterator was mid-table on that table, or the table\'s index width class (<=255, <=65535, larger) changed while an iterator was alive. Distinct: hash of decoded op bytes and profile.'),
+    'assumptions': ['OrderedKeysHashtable / OrderedValuesHashtable and String keys are exercised by the c09_ordered target'],
+    'targets': [
+        {'name': 'c09_hashtable', 'src': ['harness/C09_hashtable.cpp'], 'quick_n': 500000, 'thorough_n': 8000000, 'maxlen': 700, 'min_nontrivial': 50000, 'budget': 60,
+         'class_floors': {'case_mutation_with_iterator_mid_table': 50000, 'case_index_width_change_with_iterator_alive': 300, 'profile_256': 20000, 'profile_65536': 50}},
+    ],
+}
+
 
 def setup():
     t0 = time.time()
